@@ -121,6 +121,30 @@ def operator_cases(chk):
         cases.append(Case(f"LinearOperator.__radd__(0)/dtype={d}", "LinearOperator.__radd__", two_ops(dt), lambda A, B: sum([A, B]),
                           lambda args, r: [("M(sum([A,B])) = M(A)+M(B)", M(r) == alg.madd(M(args[0]), M(args[1])))],
                           witness=dict(engine="PYOP", op="sum", dtype=d)))
+        # convenience constructors of cola/fns.py: block-diagonal assembly, lazify / densify, no_dispatch
+        import cola.fns as F_
+
+        def two_sq(dt=dt):
+            def build():
+                r1, r2 = sym_dim("r1"), sym_dim("r2")
+                return (AbstractOp("A", r1, r1, dt), AbstractOp("B", r2, r2, dt))
+            return build
+        cases.append(Case(f"fns.block_diag/dtype={d}", "cola.fns.block_diag", two_sq(), lambda A, B: F_.block_diag(A, B),
+                          lambda args, r: [("M(block_diag(A, B)) = blockdiag(M(A), M(B))", M(r) == alg.bd(M(args[0]), M(args[1])))],
+                          witness=dict(engine="PYOP", op="block_diag", dtype=d)))
+        cases.append(Case(f"fns.lazify(operator)/dtype={d}", "cola.fns.lazify", two_ops(dt), lambda A, B: F_.lazify(A),
+                          lambda args, r: [("lazify of an operator is that operator", r is args[0])], witness=dict(engine="PYOP", op="lazify", dtype=d)))
+        cases.append(Case(f"fns.densify(operator)/dtype={d}", "cola.fns.densify", two_ops(dt), lambda A, B: F_.densify(A),
+                          lambda args, r: [("densify(A) = M(A)", r.term == M(args[0]))], witness=dict(engine="PYOP", op="densify", dtype=d)))
+
+        def nd_ens(args, r):
+            from vcgen.proxy import AMat
+            X = AMat.const("Xprobe", (args[0].shape[1], sym_dim("k")), args[0].dtype)
+            return [("no_dispatch(A) is a plain LinearOperator", type(r).__name__ == "LinearOperator"),
+                    ("no_dispatch(A) @ X = M(A) X, same shape and dtype", z3.And((r @ X).term == alg.mmul(M(args[0]), X.term),
+                                                                                z3.BoolVal(tuple(map(str, r.shape)) == tuple(map(str, args[0].shape)) and r.dtype == args[0].dtype)))]
+        cases.append(Case(f"fns.no_dispatch/dtype={d}", "cola.fns.no_dispatch", two_ops(dt), lambda A, B: F_.no_dispatch(A), nd_ens,
+                          witness=dict(engine="PYOP", op="no_dispatch", dtype=d)))
         for cdt in (np.float64, np.complex128):
             cd = np.dtype(cdt).name
             wdt = np.promote_types(dt, np.complex64) if cdt is np.complex128 else np.dtype(dt)
